@@ -1,37 +1,112 @@
 #!/venv/bin/python
 """Regenerates /verif/MANIFEST.json from the table below (kept in one place so that the
-manifest is always valid).  Run: /venv/bin/python tools/gen_manifest.py"""
+manifest is always valid).  Run: /venv/bin/python tools/gen_manifest.py
+
+A property is claimed only when its id is in CLAIMED; everything else goes to
+not_applicable with the reason given in PENDING (or the default text)."""
 import json, os
 
 HERE = os.path.dirname(os.path.dirname(os.path.abspath(__file__)))
 
+ENUM = "bounded-exhaustive model checking of the sequential code: explicit enumeration of every "
+REFV = "; every enumerated case is one execution of the real implementation, compared step by step with an independent reference codec (ref/)"
+
 # id: (engine, level, technique, text, note, design_ref)
 CHECKS = {
-    "C16": ("T", "model_checking",
-            "TLC explicit-state model checking of a TLA+ model of the documented state machine + replay of every edge of the dumped state graph against the implementation (bisimulation on the bounded graph); plus explicit-state conformance of the implementation with a Python port of the table on a larger alphabet",
-            "TLC proves the model's invariants/action properties (failed step sticky, all-received monotone and set only by rule, frame condition, step list growth, remove-completed exact) on all reachable states for 2 telecommands; every one of the ~9e5 labelled edges is then executed on a fresh real PusVerificator (real PusTc/Service1Tm objects, constructed and decoded) and the abstract state and the call's answer must match, so the properties transfer to the implementation inside the bound.",
-            "the TLA+ model/table is my reading of the documented state machine; bounds: 2 telecommands (+1 unregistered), step list <= 2 (T), up to 3 step ids / list <= 4 / 3 telecommands (H)", "2.4, 4/C16"),
-    "C19": ("H", "model_checking",
-            "explicit-state exploration of call/restart histories of the real providers on a private file, integer-counter reference model",
-            "Every history over {next, get_and_increment, current, restart} up to the depth bound, the state-hashed fixpoint for small widths, and a full cycle with a restart at every inter-call point for larger widths are executed on the real providers; every returned value and the file content after every call are compared with a counter modulo 2^w; the rejection alphabet must raise ValueError / FileNotFoundError.",
-            "crash points = inter-call points only (as the property states); private temporary directory with ordinary POSIX file semantics", "4/C19"),
+    "C01": ("V", "model_checking",
+            ENUM + "header word value (each 16-bit word fully, K^2 backgrounds, edge product) and every out-of-range probe" + REFV,
+            "Every value of each of the three header words is executed against the real pack/unpack/from_raw/helpers and compared with a bit-field reference encoder; every out-of-range probe must raise ValueError. Complete for the stated sub-space, not for all 2^48 headers.",
+            "trusts ref/ccsds.py (transcription of 133.0-B-2 4.1.3, bound to the repository's expected vectors by selftest) and CPython", "4/C01"),
+    "C02": ("V", "model_checking",
+            ENUM + "telecommand field vector within deviation bound 1 (full alphabets, K backgrounds), the edge product, every application-data string of <= 2 octets, boundary lengths, and every CRC-consistent forged packet with a too-small declared length" + REFV,
+            "Every value of every TC field, the 8^6 edge product (also through from_sp_header / from_composite_fields), all 65 793 payloads of <= 2 octets and the boundary payload lengths are packed, decoded, re-packed and compared octet by octet with the reference encoder (own CRC-16 implementation); the rejection clause enumerates every declared length below the minimum with a forged consistent CRC for every APID.",
+            "trusts ref/pus.py, ref/ccsds.py, ref/crc16.py (bound to the repository's vectors by selftest/st_ref_pus.py); two arbitrary non-edge values in two fields at once only in the K backgrounds", "4/C02"),
+    "C03": ("V", "model_checking",
+            ENUM + "telemetry field vector within deviation bound 1 in K backgrounds (each with its own timestamp length), pairs/triples of edge values, every timestamp and source-data string of <= 2 octets, boundary lengths, range refusals, and every CRC-consistent forged packet with a too-small declared length" + REFV,
+            "As C02 for PUS-C TM with the decoder configured for every timestamp length of the alphabet; also Service17Tm and the space-packet view; PUS_TM_TIMESTAMP_OFFSET against the reference offset.",
+            "trusts ref/pus.py (bound to repository vectors); timestamps > 32 octets and source data between 18 octets and the limit represented by 4 lengths", "4/C03"),
+    "C05": ("V", "model_checking",
+            ENUM + "CFDP fixed-header configuration (128 flag combinations x 16 width pairs), every data-field length (65 536), per-field ID sweeps, every (octet 0, octet 3) pair on the decoder side, and every documented refusal" + REFV,
+            "All flag/width combinations, every length value, each ID field swept separately (full for widths 1-2, walk + per-octet full for 4-8) are packed and decoded against the 727.0-B-5 5.1 reference; the decoder is fed every (octet 0, octet 3) pair; mismatching widths, oversize lengths, wrong versions and undefined width codes must be refused.",
+            "trusts ref/cfdp.py (bound to repository vectors by selftest/st_ref_cfdp.py)", "4/C05"),
+    "C06": ("V", "model_checking",
+            ENUM + "file-directive PDU parameter vector within deviation bound d (q: 2, t: 3) crossed with all 128 header configurations (CRC x large file x ID width x sequence width x mode); full products for ACK, Prompt and the Finished flag octet" + REFV,
+            "For each of the seven directive kinds every parameter vector inside the bound, under every header configuration, is constructed, packed, compared octet by octet with the reference encoder (direction bit, directive code, big-endian fields, TLVs in order, CRC trailer), decoded, compared observable by observable and with ==, re-packed; the fit clause (value >= 2^32 in 32-bit fields) must make pack() raise.",
+            "trusts ref/cfdp.py, ref/tlv.py; fault locations only with error condition codes; two arbitrary non-edge values of two parameters at once are outside the bound", "4/C06"),
+    "C07": ("V", "model_checking",
+            ENUM + "File Data PDU (256 header configurations x offset walk x file data of every length 0..20 and boundary lengths x segment metadata of every state and length 0..63; every 2-octet data string) and every (configuration, maximum packet length) pair of the segment-length helper" + REFV,
+            "Every vector is packed, compared with the reference layout, decoded (offset, metadata, data exactly; decoded object's lengths), re-packed; oversize metadata must be refused; get_max_file_seg_len_for_max_packet_len_and_pdu_cfg is checked for every configuration and every M from base-2 to base+40 by building the PDU it promises.",
+            "trusts ref/cfdp.py; file data between 21 and 65 535 octets represented by 5 lengths", "4/C07"),
+    "C08": ("V", "model_checking",
+            ENUM + "TLV/LV value (every octet string <= 2 octets, shaped strings of every length 3..255, all 256 type octets), concrete TLV parameter vectors, oversize refusals, and the full type-safety matrix (6 classes x 5 foreign types x unpack / from_tlv / holder)" + REFV,
+            "Generic and concrete TLVs/LVs are packed, compared with the 727.0-B-5 5.4 reference, decoded and compared; packet_len == len(pack()) including multi-octet UTF-8 names; every foreign-type conversion must raise the mismatch error, never return an object.",
+            "trusts ref/tlv.py (bound to repository vectors by selftest/st_ref_tlv.py); values of length 3..255 by 5 shaped contents per length", "4/C08"),
+    "C12": ("V", "model_checking",
+            ENUM + "(PDU kind x 128 header configurations x 2 ID schemes incl. IDs that look like directive codes x parameter sets) fed as reference octets to the factory, and the full 8x8 holder accessor matrix" + REFV,
+            "PduFactory.from_raw must return exactly the kind's class, equal observables, identical re-pack; pdu_type / is_file_directive / pdu_directive_type must equal the reference extraction; every non-matching holder accessor must raise TypeError.",
+            "factory is fed reference octets (that pack() produces them is C06/C07)", "4/C12"),
     "C13": ("H", "model_checking",
             "explicit enumeration of all append/parse schedules of bounded byte streams against the real parser, byte-string reference model",
             "Every schedule in {no cut, cut, cut+parse}^(n-1) of every stream in the bounded alphabet (or every cut set up to the cut bound for long streams) is executed on the real parse_space_packets with a real deque; after every call the returned packets and the queue content are compared with the byte-string model.",
             "garbage alphabet restricted to octets that cannot form a registered packet ID (asserted at generation time); single-threaded caller", "4/C13"),
-    "C01": ("V", "exploration",
-            "bounded-exhaustive enumeration of header words (each 16-bit word fully, K^2 backgrounds, edge product) against an independent reference encoder",
-            "Every value of each of the three header words is executed against the real pack/unpack/from_raw/helpers and compared with a bit-field reference encoder; every out-of-range probe must raise ValueError. Complete for the stated sub-space, not for all 2^48 headers.",
-            "trusts ref/ccsds.py (transcription of 133.0-B-2 4.1.3, bound to the repository's expected vectors by selftest) and CPython", "4/C01"),
+    "C14": ("V", "model_checking",
+            ENUM + "(day, ms) stamp of the bounded grid (all 65 536 days x boundary ms; edge days x every ms around every second boundary; t: every ms of four days), every from_datetime input of the date x time x ms grid, every (stamp, delta) addition of the grid incl. all midnight landings, all 256 P-fields and all short lengths" + REFV,
+            "Octets, decode, datetime view (exact), Unix-seconds view (within 2^-20 s), strict monotonicity, from_datetime (exact floor for whole-ms datetimes), addition with day carry / OverflowError, refusals - against exact integer calendar arithmetic.",
+            "trusts ref/cds.py and CPython datetime; tolerance 2^-20 s only for the float view (brute-forced attainable, DESIGN.md C14)", "4/C14"),
+    "C16": ("T", "model_checking",
+            "TLC explicit-state model checking of a TLA+ model of the documented state machine + replay of every edge of the dumped state graph against the implementation (bisimulation on the bounded graph); plus explicit-state conformance of the implementation with a Python port of the table on a larger alphabet",
+            "TLC proves the model's invariants/action properties (failed step sticky, all-received monotone and set only by rule, frame condition, step list growth, remove-completed exact) on all reachable states for 2 telecommands; every one of the ~9e5 labelled edges is then executed on a fresh real PusVerificator (real PusTc/Service1Tm objects, constructed and decoded) and the abstract state and the call's answer must match, so the properties transfer to the implementation inside the bound.",
+            "the TLA+ model/table is my reading of the documented state machine; bounds: 2 telecommands (+1 unregistered), step list <= 2 (T), up to 3 step ids / list <= 4 / 3 telecommands (H)", "2.4, 4/C16"),
+    "C17": ("V", "model_checking",
+            ENUM + "USLP primary / truncated header field vector (SCID and frame length full(16), VCID/MAP full, VCF lengths 0..7 x count walk, K backgrounds), out-of-range IDs, and every transfer frame of the (kind x rule x UPID x TFDZ length x insert zone x OCF x FECF) product with the matching and every detectable mismatching managed-parameter set" + REFV,
+            "Headers and frames are packed, compared with the 732.1-B-2 reference, len() and the frame-length field checked, decoded with matching parameters and compared; every detectable parameter mismatch must raise a Uslp*/ValueError.",
+            "trusts ref/uslp.py (bound to tests/test_uslp.py vectors); undetectable parameter mismatches are not demanded", "4/C17"),
+    "C18": ("V", "model_checking",
+            ENUM + "reserved CFDP message of the nine kinds over all parameter values of the bounded alphabets, every message-type octet, and every non-reserved content of the alphabet (all strings <= 2 octets, one-octet-off markers, non-UTF-8 octets)" + REFV,
+            "pack() against the section-6 reference, classification predicates, matching get_* returns the original parameters (widths included), every non-matching get_* returns None; non-reserved contents must answer False / None without raising.",
+            "trusts ref/tlv.py; listing-options layout is a library extension taken from its documentation", "4/C18"),
+    "C19": ("H", "model_checking",
+            "explicit-state exploration of call/restart histories of the real providers on a private file, integer-counter reference model",
+            "Every history over {next, get_and_increment, current, restart} up to the depth bound, the state-hashed fixpoint for small widths, and a full cycle with a restart at every inter-call point for larger widths are executed on the real providers; every returned value and the file content after every call are compared with a counter modulo 2^w; the rejection alphabet must raise ValueError / FileNotFoundError.",
+            "crash points = inter-call points only (as the property states); private temporary directory with ordinary POSIX file semantics", "4/C19"),
+    "C20": ("V", "model_checking",
+            ENUM + "(width, value) byte field (widths 0-2 fully, half-word / octet sweeps in K backgrounds + walk for widths 4 and 8), every refusal probe, every depth-2 setter history, every ordered pair of the edge product for ==/hash, every helper conversion" + REFV,
+            "Octet/int/len/hex views, every from-octets entry point with and without trailing octets, ==/hash <=> (value, width), ValueError refusals, IntByteConversion helpers against two's-complement big-endian encoding.",
+            "oracle is int.to_bytes / int.from_bytes; empty-field reading as in DESIGN.md 5.6", "4/C20"),
+    "C04": ("F", "fault_enumeration",
+            "exhaustive fault enumeration (model-checking family, engine F): every single-bit flip and every burst pattern up to 16 bits at every admissible bit offset of every corpus packet, executed on the real decoders",
+            "For every CRC-protected corpus packet (PUS TC/TM, service wrappers, all eight CFDP PDU kinds with the CRC flag) every corruption of the family is fed to the class decoder, the factory and check_pus_crc; returning an object is a violation. The uncorrupted clause compares every packed trailer (also after setter histories) with an independent CRC-16 implementation.",
+            "length-determining fields and the CFDP CRC-flag bit excluded as the property / format require (DESIGN.md C04); CRC-16 detects all bursts <= 16 bits by construction, so a miss is always a coverage defect of the code", "4/C04"),
+    "C09": ("F", "fault_enumeration",
+            "exhaustive fault enumeration (model-checking family, engine F): every suffix of the suffix alphabet appended to every corpus unit of every kind, and every ordered pair/triple of units split by reported lengths, executed on the real decoders against the unfaulted decode and the reference",
+            "Self-delimiting units must decode identically with any continuation and report their own length; CFDP PDUs must decode exactly or be refused with a documented error - trailing octets and the CRC trailer never enter the parameters.",
+            "suffix alphabet is finite (all single octets, runs, format look-alikes, other corpus units)", "4/C09"),
+    "C10": ("F", "fault_enumeration",
+            "exhaustive fault enumeration (model-checking family, engine F): every octet string <= 2 (3) octets, every strict prefix and every single-octet substitution in the first 40 octets of every corpus unit, through every public decode entry point under a watchdog",
+            "Each call must return or raise a documented error class; IndexError/struct.error/TypeError/AttributeError/KeyError/AssertionError/anything else or a hang is a violation; every strict prefix of a self-delimiting unit must be refused.",
+            "documented set as listed in DESIGN.md C10; ReservedCfdpMessage.get_* parsers out of scope", "4/C10"),
+    "C11": ("H", "model_checking",
+            "explicit-state / stateless exploration of every setter history up to the depth bound on the real packet objects (constructed and decoded start states), plain-dict reference model + fresh-construction differential oracle; purity clause by deep dumps of caller objects",
+            "At every state: reported length == packed length, length field parsed from the octets == format requirement, octets == reference encoding of the model's final values == fresh construction, pack twice identical and equality unchanged; constructors and pack() never modify caller-supplied configuration/parameter objects.",
+            "event menus and argument alphabets as listed in DESIGN.md C11", "4/C11"),
+    "C15": ("V", "model_checking",
+            ENUM + "request-ID word value (each 16-bit word fully in K^2 backgrounds, single-bit neighbours for ==/hash, three construction routes) and every service-1 report of the (subservice x step width/value x code width/value x failure data x timestamp length x TC header) product incl. all mismatching parameter sets" + REFV,
+            "Request ID octets / u32 / decode against the first four reference header octets; report source data layout against the reference; decode with matching widths returns the same values, re-packs identically, == original; mismatching parameter sets refused with InvalidVerifParams.",
+            "trusts ref/pus.py", "4/C15"),
 }
 
-PENDING = {  # not yet claimed in this commit (check still being built) -- shrinks as checks land
+# checks that exist, are silent on the repaired tree and reproduce the known defects on the snapshot
+CLAIMED = ["C01", "C02", "C03", "C05", "C06", "C07", "C08", "C12", "C13", "C14", "C16", "C17", "C18", "C19", "C20"]
+
+PENDING = {  # not yet claimed at this commit (check still being built) -- shrinks as checks land
 }
+
 
 def main():
     props = [json.loads(l) for l in open(os.path.join(HERE, "properties.jsonl"))]
     checks = []
-    for pid, (eng, level, tech, text, note, ref) in CHECKS.items():
+    for pid in sorted(CLAIMED):
+        eng, level, tech, text, note, ref = CHECKS[pid]
         checks.append({
             "property_id": pid,
             "quick_cmd": f"./bin/check {pid} --tier quick",
@@ -45,8 +120,10 @@ def main():
         })
     na = []
     for p in props:
-        if p["id"] not in CHECKS:
-            na.append({"property_id": p["id"], "reason": PENDING.get(p["id"], "check under construction: bounded-exhaustive check designed in DESIGN.md section 4 but not yet implemented at this commit; not claimed until it runs")})
+        if p["id"] not in CLAIMED:
+            na.append({"property_id": p["id"], "reason": PENDING.get(p["id"], "check under construction: bounded-exhaustive check designed in DESIGN.md section 4 but not yet implemented and validated at this commit; not claimed until it runs silently on the repaired tree and reproduces the known defects")})
+    def serves(e):
+        return sorted(k for k, v in CHECKS.items() if v[0] == e)
     doc = {
         "version": 1,
         "setup_cmd": "/venv/bin/python selftest/selftest.py",
@@ -58,18 +135,19 @@ def main():
             "add_only": True,
         },
         "engines": [
-            {"name": "V", "path": "mc/vectors.py", "kind_free_text": "choice-vector explorer: complete enumeration of field/configuration vectors up to a deviation bound, each executed on the real classes and compared with independent reference codecs (ref/)", "serves_properties": ["C01","C02","C03","C05","C06","C07","C08","C12","C14","C15","C17","C18","C20"]},
-            {"name": "F", "path": "mc/faults.py", "kind_free_text": "fault enumerator: every truncation / substitution / bit-burst / suffix of a corpus of valid packets", "serves_properties": ["C02","C03","C04","C08","C09","C10"]},
-            {"name": "H", "path": "mc/histories.py", "kind_free_text": "explicit-state / stateless history explorer over the real objects with a plain-Python reference model", "serves_properties": ["C11","C13","C16","C19","C20"]},
-            {"name": "T", "path": "mc/tlc.py", "kind_free_text": "TLC on models/PusVerificator.tla; the whole dumped state graph (every edge) is replayed against the implementation", "serves_properties": ["C16"]},
+            {"name": "V", "path": "mc/domains.py", "kind_free_text": "choice-vector explorer: complete enumeration of field/configuration vectors up to a deviation bound (alphabets in mc/domains.py, enumeration in each checks/cNN.py), each executed on the real classes and compared with independent reference codecs (ref/)", "serves_properties": serves("V")},
+            {"name": "F", "path": "checks/", "kind_free_text": "fault enumerator: every truncation / substitution / bit-burst / suffix of a corpus of valid packets (units/), executed on the real decoders", "serves_properties": serves("F")},
+            {"name": "H", "path": "checks/", "kind_free_text": "explicit-state / stateless history explorer over the real objects with a plain-Python reference model", "serves_properties": serves("H")},
+            {"name": "T", "path": "mc/tlc.py", "kind_free_text": "TLC on models/PusVerificator.tla; the whole dumped state graph (every edge) is replayed against the implementation", "serves_properties": serves("T")},
         ],
         "checks": checks,
         "not_applicable": na,
-        "notes": "All checks are bounded-exhaustive explorations (model-checking family); see DESIGN.md. KNOWN_FINDINGS.txt lists repaired defects (fixed:) and findings.",
+        "notes": "All checks are bounded-exhaustive explorations (model-checking family); see DESIGN.md. KNOWN_FINDINGS.txt lists repaired defects (fixed:) and findings. mc/runner.py is the common runner (sharding over 16 workers, evidence, replay, known-findings).",
     }
     with open(os.path.join(HERE, "MANIFEST.json"), "w") as f:
         json.dump(doc, f, indent=1)
     print("wrote MANIFEST.json with", len(checks), "checks,", len(na), "not claimed")
+
 
 if __name__ == "__main__":
     main()
